@@ -38,6 +38,10 @@ func main() {
 			fmt.Printf("%s %s jobs=%d\n", os.Args[2], t, n)
 		}
 		os.Exit(0)
+	case "selftest-conc":
+		code := cmdSelftestConc()
+		os.RemoveAll(workDir())
+		os.Exit(code)
 	case "replay":
 		code := cmdReplay(os.Args[2])
 		os.RemoveAll(workDir())
@@ -70,6 +74,8 @@ func cmdRun(args []string) int {
 			j.MaxPaths = v
 		case "_workers":
 			workers = v
+		case "_delays":
+			j.Delays = v
 		default:
 			j.Params[p[0]] = v
 		}
